@@ -244,6 +244,8 @@ class Extract:
             c = op.const
             if c.get("int") is not None:
                 return C(c["int"])
+            if c.get("named") and c.get("def"):
+                return S("const:%s" % c["def"])  # a named crate constant stays a symbol in formulas (its value is judged where it is defined)
             fv = op.float_value()
             if fv is not None:
                 if fv != fv or fv in (float("inf"), float("-inf")):
